@@ -10,7 +10,7 @@
 (* Leaf outcomes: <<"val", v>>  <<"skip">> (not loaded, target unchanged)   *)
 (*                <<"err", code>> (SerializationException with that code)   *)
 (***************************************************************************)
-EXTENDS MsgPackFormat, FiniteSets
+EXTENDS MsgPackFormat, FiniteSets, XmlFormat
 
 IntTypes == {"i8", "u8", "i16", "u16", "i32", "u32", "i64", "u64"}
 TypeBytes(T) == IF T \in {"i8", "u8"} THEN 1 ELSE IF T \in {"i16", "u16"} THEN 2 ELSE IF T \in {"i32", "u32"} THEN 4 ELSE 8
@@ -134,9 +134,46 @@ LoadElems(items, E, pol, i, acc) ==
        ELSE IF r[1] = "any" THEN r
        ELSE LoadElems(items, E, pol, i + 1, Append(acc, IF r[1] = "val" THEN r[2] ELSE Fresh(E)))
 
+\* XML archive: every scalar is text.  Only the well-defined part is prescribed; the rest is left open ("any"):
+\* null vs empty (the archive cannot tell them apart), containers given where a scalar is expected, numeric-looking strings.
+XmlIntegralFloat(v) ==      \* table floats whose text form has no fraction: they read back as integers
+  IF v[2] \in {<<0, 0, 0, 0, 0, 0, 0, 0>>, <<0, 0, 0, 0>>} THEN IntSmall(0)
+  ELSE IF v[2] \in {<<64, 144, 0, 0, 0, 0, 0, 0>>, <<68, 128, 0, 0>>} THEN IntSmall(1024) ELSE <<"none">>
+XmlFloatOf(v, T) ==         \* the table float denoted by the text of v, in the width of the target
+  LET i == CHOOSE n \in 1..Len(XmlFloatTable) : XmlFloatTable[n].text = XmlText(v) IN
+  IF T = "f64" THEN <<"f64", XmlFloatTable[i].f64>> ELSE <<"f32", XmlFloatTable[i].f32>>
+LoadLeafXml(v, T, pol) ==
+  LET k == v[1] IN
+  IF k \in {"arr", "map"} THEN
+       (IF T \in {"vec_i32", "vec_str"} /\ k = "arr" /\ Len(v[2]) > 0
+        THEN LET r == LoadElems(v[2], IF T = "vec_i32" THEN "i32" ELSE "str", pol, 1, <<>>) IN IF r[1] = "val" THEN <<"val", <<"arr", r[2]>>>> ELSE r
+        ELSE <<"any">>)
+  ELSE IF T \notin (IntTypes \cup {"bool", "f32", "f64", "str"}) THEN <<"any">>
+  ELSE IF k = "nil" THEN <<"skip">>
+  ELSE IF k = "str" /\ v[2] = <<>> THEN <<"any">>                          \* empty string: indistinguishable from null
+  ELSE IF T = "str" THEN <<"val", <<"str", EncodeCps(XmlText(v), "utf8", 1)>>>>
+  ELSE IF T \in IntTypes THEN
+       IF k = "int" THEN (IF IntFits(v[2], v[3], T) THEN <<"val", v>>
+                          \* named deviation Dev_NegativeTextToUnsignedIsMismatch: "-1" for an unsigned target is reported as "not a number"
+                          ELSE IF pol.dev = "negtext" /\ v[2] /\ ~IsSignedT(T) THEN Mismatch(pol)
+                          ELSE Overflow(pol))
+       ELSE IF k \in {"f64", "f32"} THEN
+            (LET n == XmlIntegralFloat(v) IN IF n = <<"none">> THEN Mismatch(pol) ELSE IF IntFits(n[2], n[3], T) THEN <<"val", n>> ELSE Overflow(pol))
+       ELSE Mismatch(pol)                                                    \* "true", non-numeric text
+  ELSE IF T = "bool" THEN
+       IF k = "bool" THEN <<"val", v>>
+       ELSE IF k = "int" /\ ~v[2] /\ SigBytes(v[3]) <= 1 /\ v[3][8] <= 1 THEN <<"val", <<"bool", v[3][8] = 1>>>>
+       ELSE <<"any">>
+  ELSE \* f32 / f64
+       IF k \in {"f64", "f32"} THEN <<"val", XmlFloatOf(v, T)>>
+       ELSE IF k = "int" THEN (LET f == IntToFloat(v, T) IN IF f[1] = "any" THEN <<"any">> ELSE <<"val", f>>)
+       ELSE IF k = "bool" THEN Mismatch(pol)
+       ELSE Mismatch(pol)
+
 LoadLeaf(v, T, pol) ==
   LET k == v[1] IN
-  IF T = "null" THEN (IF k = "nil" THEN <<"val", <<"nil">>>> ELSE Mismatch(pol))
+  IF pol.arch = "xml" THEN LoadLeafXml(v, T, pol)
+  ELSE IF T = "null" THEN (IF k = "nil" THEN <<"val", <<"nil">>>> ELSE Mismatch(pol))
   ELSE IF k = "nil" THEN                                    \* null is "not loaded" for every other target ...
        (IF pol.arch \notin {"msgpack", "json"} /\ pol.mm = "throw" /\ T \notin (IntTypes \cup {"bool", "f32", "f64"})
         THEN <<"any">>          \* ... XML + ThrowError + non-fundamental target: left open (XML cannot tell null from empty)
@@ -214,7 +251,12 @@ RECURSIVE ExecObjOps(_, _, _, _, _), ExecArrOps(_, _, _, _, _, _)
 
 \* scope entry shared by obj/arr ops: v = the value under the key (or <<"absent">>)
 OpenKind(v, want, pol) ==      \* "enter" | "skip" | <<"err", code>> | <<"any">>
-  IF v[1] = "nil" /\ pol.arch \notin {"msgpack", "json"} /\ pol.mm = "throw" THEN <<"any">>
+  IF pol.arch = "xml" THEN        \* a scope is an element with at least one child element; null / empty containers are left open
+       (IF v[1] = "absent" THEN <<"skip">>
+        ELSE IF v[1] \in {"arr", "map"} THEN (IF v[1] = want /\ Len(v[2]) > 0 THEN <<"enter">> ELSE <<"any">>)
+        ELSE IF v[1] = "nil" \/ (v[1] = "str" /\ v[2] = <<>>) THEN <<"any">>
+        ELSE Mismatch(pol))
+  ELSE IF v[1] = "nil" /\ pol.arch \notin {"msgpack", "json"} /\ pol.mm = "throw" THEN <<"any">>
   ELSE IF v[1] = "absent" \/ v[1] = "nil" THEN <<"skip">>
   ELSE IF v[1] = want THEN <<"enter">>
   ELSE Mismatch(pol)
